@@ -553,6 +553,10 @@ func tierBounds(t core.Tier) bounds {
 				// every labelled loop-free 5-node digraph with <= 5 edges (the depth-first order of componentReachDFS follows the
 				// numeric order of ids, so one representative per isomorphism class does not cover it): reach queries, two deep
 				{Graphs: graphs.Options{MinNodes: 5, MaxNodes: 5, MaxEdges: 5}, Profiles: a, Depth: 2, ReachOnly: true},
+				// every labelled 6-node DAG with <= 7 edges whose ids are in a topological order, capacities 2 and 3 (the smallest
+				// setting in which a join component's entry is evicted between its two visits), both directions (inbound queries
+				// on such a graph are outbound queries on its reverse with the id order reversed), two deep
+				{Graphs: graphs.Options{MinNodes: 6, MaxNodes: 6, MaxEdges: 7, Forward: true}, Profiles: a, Depth: 2, ReachOnly: true, MinCap: 2, MaxCap: 3},
 			},
 		}
 	}
